@@ -66,7 +66,10 @@ def runHistory (pk : PublicKey) (sk : PrivateKey) (nu0 : Int) (time0 : Int) (ste
       | none => throw "bad to"
       | some sacc0 =>
         -- "badnu": an issuer-signed accumulator whose value does not match its events
-        let sacc := if badnu then { sacc0 with nu := sacc0.nu * 4 % pk.n } else sacc0
+        let sacc1 := if badnu then { sacc0 with nu := sacc0.nu * 4 % pk.n } else sacc0
+        -- "othercounter": the genuine signed bytes announced for another key generation
+        let sacc := if (getBool st "othercounter").toOption.getD false
+          then { sacc1 with pkCounter := sacc1.pkCounter + 1 } else sacc1
         let evs0 := (h.events.drop frm).take (to + 1 - frm)
         -- "badevents": a genuine signed accumulator with one event value altered
         let badevents := (getBool st "badevents").toOption.getD false
